@@ -101,7 +101,7 @@ def r1(ctx):
                     removed_none = any(isinstance(c, tuple) and c[0] == "discr" and "cbarg" in repr(c) and truth == 0 for c, truth, _s, _at in p.state.pc)
                     after = [s for j, s in subs if j > i]
                     if removed_some:
-                        ok = len(after) == 1 and any(isinstance(x, tuple) and x[0] == "cbarg" for x in atoms(after[0].args[1]))
+                        ok = len(after) >= 1 and all(any(isinstance(x, tuple) and x[0] == "cbarg" for x in atoms(a_.args[1])) for a_ in after)
                         rep.check(ok, "%s:remove_if:removed-subtracted" % nm, "each evicted record's size subtracted", "the sweep does not subtract the size of each evicted record", b.loc())
                     elif removed_none:
                         rep.check(not after, "%s:remove_if:none-removed" % nm, "nothing subtracted for an empty slot", "the sweep subtracts for a slot that removed nothing", b.loc())
